@@ -18,6 +18,8 @@ SCENARIOS = {
     # free 3+1 data (not tied to a 4-metric) with a moving perfect fluid
     'fluid': dict(mode='free', matter='fluid', input_form='tensor', order=1),
     'fluid_comp': dict(mode='free', matter='fluid', input_form='components', order=1),
+    # the same with second-order jets: for functions that differentiate twice (only used by the cache-state comparison)
+    'fluid_o2': dict(mode='free', matter='fluid', input_form='tensor', order=2),
     # zero sets of the fluid variables (safe_division divisors): vacuum regions with pressure, fluid at rest
     'fluid_rho0zero': dict(mode='free', matter='fluid', input_form='tensor', order=1, fluid_zero=('rho0',)),
     'fluid_atrest': dict(mode='free', matter='fluid', input_form='tensor', order=1, fluid_zero=('v',)),
@@ -117,6 +119,10 @@ def function_obligations(R, worlds, name, scens, npoints=1, prop_tag='ensures', 
             else:
                 raise Undecided('resampling exhausted in spec evaluation')
         except (SpecUnavailable, OrderExhausted):
+            # no textbook value in this scenario (e.g. a time derivative off-shell): the function is still under the obligation
+            # that its value does not depend on WHICH of its guard keys happen to be cached (the states describe the same input)
+            if g['keys']:
+                made += _cache_state_independence(R, worlds, name, scen, g, backend)
             continue
         except (Undecided, NeedResample) as e:
             R.ob(f'core.{name}[{scen}]:spec', name, 'undecided', backend, 0.0, f'spec evaluation: {e}')
@@ -183,6 +189,79 @@ def function_obligations(R, worlds, name, scens, npoints=1, prop_tag='ensures', 
             else:
                 R.ob(obname + ':frame', name, 'discharged', 'numpy-readonly', 0.0)
     return made
+
+
+def _cache_state_independence(R, worlds, name, scen, g, backend):
+    """all guard paths of `name` in `scen` give the same value (callees answered by their specs)"""
+    t0 = time.time()
+    results = []
+    for sc in (scen, scen + '_o2'):
+        if sc not in SCENARIOS:
+            continue
+        F, U, env = worlds.get(sc, 0)
+        try:
+            _, paths = CT.guard_paths(env, name, U)
+        except Exception:
+            return 0
+        if len(paths) < 2:
+            return 0
+        results = []
+        exhausted = False
+        for present in paths:
+            try:
+                st, det, stub, res = CT.run_function(env, U, name, set(present) | set(U.inputs))
+            except OrderExhausted:
+                exhausted = True
+                continue
+            except (SpecUnavailable, Undecided, NeedResample):
+                continue
+            if st == 'ok':
+                results.append((present, res))
+        if len(results) >= 2 or not exhausted:
+            break
+    if len(results) < 2:
+        return 0
+    ref_p, ref = results[0]
+    bad = []
+    for present, res in results[1:]:
+        try:
+            diff = CT.compare(res, CT.untens_tree(ref))
+        except Exception as e:
+            diff = [('shape', str(e))]
+        if diff:
+            bad.append(f'cached {path_label(present, g)} vs cached {path_label(ref_p, g)}: components {sorted({c for c, _ in diff})[:6]}')
+
+    used_scen = sc
+    states = [sorted(set(p_) & set(g['keys'])) for p_, _ in results]
+
+    def rp(o):
+        """the real AurelCore, once per cache state: the guard keys of that state are requested first, then the quantity"""
+        from . import native
+        import numpy as _np2
+        Ff, Uf, envf = native.float_world(used_scen, worlds.seed)
+        vals = []
+        for st_keys in states:
+            rel, offs = native.make_native(Uf, clear_cache_every_nbr_calc=10 ** 6)      # no eviction between the two requests
+            for k, v in Uf.inputs.items():
+                rel.data[k] = native.field_of(v, offs)
+            rel.freeze_data()
+            for k in st_keys:
+                rel[k]
+            out = _np2.asarray(rel[name])
+            ic = native.IC
+            vals.append(out[..., ic, ic, ic])
+        ref_v = vals[0]
+        worst, wi = 0.0, 0
+        for i_, v in enumerate(vals[1:], 1):
+            d = float(_np2.max(_np2.abs(v - ref_v))) / (1.0 + float(_np2.max(_np2.abs(ref_v))))
+            if d > worst:
+                worst, wi = d, i_
+        txt = (f'real AurelCore (fd_order 8, 13^3 grid, scenario {used_scen}): rel[{name!r}] requested after {states[wi] or "nothing"} vs after '
+               f'{states[0] or "nothing"}: relative difference {worst:.3e}')
+        return worst > 1e-6, txt
+    R.ob(f'core.{name}[{scen}]:same value in every cache state of its guard keys', name, 'refuted' if bad else 'discharged', backend,
+         time.time() - t0, '; '.join(bad[:3]) or f'{len(results)} cache states agree', bad[:6] or None, replay=rp)
+    return 1
 
 
 def _native_function(name, scen, present, seed):
